@@ -177,14 +177,22 @@ theorem write_sim_alloc (f : FileH) (buf : List Nat) (d : Dev)
       (absFile d.fs d.img f).write (fatAllocator d.fs.totalClusters d.fs.fsInfo.next) (tabView d.fs d.img) buf =
         (.error .noSpace, absFile d.fs d.img f, tabView d.fs d.img) ∧
       DevStep d d' ∧ absFile d'.fs d'.img f = absFile d.fs d.img f ∧ FileRep d'.fs d'.img f ∧
-      InfoOk d'.fs d'.img) ∨
+      InfoOk d'.fs d'.img ∧
+      (∀ q, d'.img.getByte q ≠ d.img.getByte q → q = statusOff d.fs)) ∨
     (∃ k f' d', run (f.write buf) d = (.ok (k, f'), d') ∧
       ((absFile d.fs d.img f).write (fatAllocator d.fs.totalClusters d.fs.fsInfo.next)
         (tabView d.fs d.img) buf).1 = .ok k ∧
       DevStep d d' ∧
       CoreEq (absFile d'.fs d'.img f') ((absFile d.fs d.img f).write
         (fatAllocator d.fs.totalClusters d.fs.fsInfo.next) (tabView d.fs d.img) buf).2.1 ∧
-      FileRep d'.fs d'.img f' ∧ InfoOk d'.fs d'.img) := by
+      FileRep d'.fs d'.img f' ∧ InfoOk d'.fs d'.img ∧
+      (∃ c, allocFindV (tabView d.fs d.img) d.fs.fsInfo.next d.fs.totalClusters = some c ∧
+        ∀ q, d'.img.getByte q ≠ d.img.getByte q → q = statusOff d.fs ∨ FatEntryPos d.fs c q ∨
+          (∃ p, f.currentCluster = some p ∧ FatEntryPos d.fs p q) ∨
+          (clusterOff d.fs c ≤ q ∧ q < clusterOff d.fs c + k)) ∧
+      (∀ x, x ∉ fileChain d.fs d.img f → tabView d.fs d.img x ≠ .free →
+        tabView d'.fs d'.img x = tabView d.fs d.img x) ∧
+      (∀ x ∈ fileChain d'.fs d'.img f', x ∈ fileChain d.fs d.img f ∨ tabView d.fs d.img x = .free)) := by
   obtain ⟨sz, hsz⟩ := hrep.file
   have hinv := hrep.inv
   have hasz : (absFile d.fs d.img f).size = sz := by simp [absFile, hsz]
@@ -265,8 +273,8 @@ theorem write_sim_alloc (f : FileH) (buf : List Nat) (d : Dev)
     rw [if_pos (show (absFile d.fs d.img f).offset % (absFile d.fs d.img f).cs = 0 from hm), hbnone]
     simp only [fatAllocator]
     cases allocFindV (tabView d.fs d.img) d.fs.fsInfo.next d.fs.totalClusters <;> rfl
-  rcases run_allocClusterFs f.currentCluster d2 hfa2 hcd2 hwf2 hg2 hinfo2 hprev with
-    ⟨hnone, d3, hr3, hs3⟩ | ⟨c, d3, hsome, hr3, hst3, hcd3, htv3, hinfo3, hfr3⟩
+  rcases run_allocClusterFs_fine f.currentCluster d2 hfa2 hcd2 hwf2 hg2 hinfo2 hprev with
+    ⟨hnone, d3, hr3, hs3⟩ | ⟨c, d3, hsome, hr3, hst3, hcd3, htv3, hinfo3, hfr3, hfine3⟩
   · -- NotEnoughSpace
     left
     rw [htv2, hnext2, htot2] at hnone
@@ -275,7 +283,14 @@ theorem write_sim_alloc (f : FileH) (buf : List Nat) (d : Dev)
       rw [if_pos hm, run_bind_ok h2]
       simp only
       rw [hisdir, run_bind_error hr3]
-    refine ⟨d3, by rw [run_bind_error hsel], ?_, ?_, ?_, ?_, ?_⟩
+    have hstatus := setDirtyFlag_only_status d d1 hr1 hfa (by
+      have := hg.status_lt; have := hg.fat_dev; omega) hwf
+    refine ⟨d3, by rw [run_bind_error hsel], ?_, ?_, ?_, ?_, ?_, ?_⟩
+    rotate_left 5
+    · intro q hne
+      by_cases hsq : q = statusOff d.fs
+      · exact hsq
+      · exfalso; apply hne; rw [hs3.img, hs2.img]; exact hstatus q hsq
     · rw [hawrite _ hawc, hnone]
     · exact hs1.trans ((DevStep.of_sameStore hs2).trans (DevStep.of_sameStore hs3))
     · rw [hs3.fs, hs3.img, hs2.fs, hs2.img]; exact hab1
@@ -496,7 +511,52 @@ theorem write_sim_alloc (f : FileH) (buf : List Nat) (d : Dev)
             exact (hprev x hcur).2.2 (by rw [htv2]; exact hcf)
           simp only [allocLinkV]
           rw [updV_ne _ _ _ _ hpc, updV_same]
-    refine ⟨w, f', d4, hr4, by rw [hwrite], ?_, by rw [hwrite]; exact hcore, hrep4, ?_⟩
+    have hstatus := setDirtyFlag_only_status d d1 hr1 hfa (by
+      have := hg.status_lt; have := hg.fat_dev; omega) hwf
+    refine ⟨w, f', d4, hr4, by rw [hwrite], ?_, by rw [hwrite]; exact hcore, hrep4, ?_, ⟨c, hsome, ?_⟩, ?_, ?_⟩
+    rotate_left 2
+    · intro q hne
+      by_cases hsq : q = statusOff d.fs
+      · exact Or.inl hsq
+      · by_cases h1 : FatEntryPos d.fs c q
+        · exact Or.inr (Or.inl h1)
+        · by_cases h2 : ∃ p, f.currentCluster = some p ∧ FatEntryPos d.fs p q
+          · exact Or.inr (Or.inr (Or.inl h2))
+          · refine Or.inr (Or.inr (Or.inr ?_))
+            by_cases hin : clusterOff d.fs c ≤ q ∧ q < clusterOff d.fs c + w
+            · exact hin
+            · exfalso
+              apply hne
+              have hfs2 : d2.fs = d1.fs := hs2.fs
+              have hfe : ∀ x, FatEntryPos d2.fs x q ↔ FatEntryPos d.fs x q := by
+                intro x; unfold FatEntryPos
+                rw [hfs2, hs1.geom.fatSlice, hs1.geom.fatType]
+              rw [himg4, Img.getByte_write_of_not_mem _ hwf3 _ _ _ (by rw [hlen]; exact hin),
+                hfine3 q (fun h => h1 ((hfe c).mp h)) (fun p hp h => h2 ⟨p, hp, (hfe p).mp h⟩), hs2.img]
+              exact hstatus q hsq
+    · intro x hx hxf
+      rw [htv4]
+      cases hcur : f.currentCluster with
+      | none =>
+        simp only [allocLinkV]
+        rw [updV_ne _ _ _ _ (fun e => hxf (by rw [e]; exact hcf))]
+      | some p =>
+        have hpm : p ∈ fileChain d.fs d.img f := by
+          have hc := hinv.cur
+          have hc' : f.currentCluster = if f.offset = 0 then none
+              else (fileChain d.fs d.img f)[(f.offset - 1) / d.fs.clusterSize]? := hc
+          rw [hcur] at hc'
+          by_cases h0 : f.offset = 0
+          · rw [if_pos h0] at hc'; cases hc'
+          · rw [if_neg h0] at hc'; exact List.mem_of_getElem? hc'.symm
+        simp only [allocLinkV]
+        rw [updV_ne _ _ _ _ (fun e => hx (by rw [e]; exact hpm)),
+          updV_ne _ _ _ _ (fun e => hxf (by rw [e]; exact hcf))]
+    · intro x hx
+      rw [hch4] at hx
+      rcases List.mem_append.mp hx with hx | hx
+      · exact Or.inl hx
+      · simp at hx; exact Or.inr (hx ▸ hcf)
     · refine hs1.trans ((DevStep.of_sameStore hs2).trans (hst3.trans ⟨hfa4, ?_, ?_, by rw [hfs4]; exact FsGeomEq.refl _,
         hclk4⟩))
       · rw [himg4, Img.write_size]
